@@ -805,7 +805,7 @@ func main() {
 		ID:          "C07",
 		Level:       "model_checking",
 		CaseTimeout: 30 * time.Minute,
-		Rule:        "exports: all well-formed peer scripts of <= L steps over {Bootstrap, call returning a new capability, call returning the bootstrap capability again, Finish(releaseResultCaps f|t), Release(e,n) for every n <= references held}; imports: all programs of 1-2 application threads x <= 3 ops over {Bootstrap, AddRef, Release, Call} (the same remote capability arriving up to 3 times while other references are dropped); params: the same local capability sent in 1-2 calls x Return.releaseParamCaps x explicit Release. For each scenario every schedule of the real rpc/server/capnp code inside the bounds; oracle = reference-count model (DESIGN appendix A.4) stepped from the wire log, compared with the Conn's export/import tables (hook) and with the Shutdown events of the recording capabilities, before and after Close. states = distinct scheduling configurations summed over scenarios; transitions = scheduling steps; traces = executions on the implementation.",
+		Rule:        "exports: all well-formed peer scripts of <= L steps over {Bootstrap, call returning a new capability, call returning the bootstrap capability again, Finish(releaseResultCaps f|t), Release(e,n) for every n <= references held}; imports: all programs of 1-2 application threads x <= 3 ops over {Bootstrap, AddRef, Release, Call} (the same remote capability arriving up to 3 times while other references are dropped); params: the same local capability sent in 1-2 calls x Return.releaseParamCaps x explicit Release; fault-leaks: 6 scenarios (Conn as caller: bootstrap / call / capability result / pipelined call / capability parameter; peer as caller) x every placement of at most one (thorough: two) transport faults, then Close, two garbage collections and capnp.SetClientLeakFunc: no client created inside the library may be collected unreleased. For each scenario every schedule of the real rpc/server/capnp code inside the bounds; oracle = reference-count model (DESIGN appendix A.4) stepped from the wire log, compared with the Conn's export/import tables (hook) and with the Shutdown events of the recording capabilities, before and after Close. states = distinct scheduling configurations summed over scenarios; transitions = scheduling steps; traces = executions on the implementation.",
 		Assumptions: []string{
 			"scheduling points at every sync operation are sufficient (data-race freedom checked separately); timers never fire",
 		},
@@ -815,7 +815,9 @@ func main() {
 			}
 			L, cfgE, cfgI := 3, vsched.Config{MaxPreempt: 1, MaxFree: 1, MaxTotal: 1, MaxSteps: 30000}, vsched.Config{MaxPreempt: 1, MaxFree: 1, MaxTotal: 1, MaxSteps: 30000}
 			ip := append(iprogs(1, 3), iprogs(2, 2)...)
+			leakName, leakFaults := "fault-leaks<=1", 1
 			if tier == "thorough" {
+				leakName, leakFaults = "fault-leaks<=2", 2
 				L = 4
 				cfgI = vsched.Config{MaxPreempt: 2, MaxFree: 2, MaxTotal: 2, MaxSteps: 30000, MaxExecs: 200000}
 				ip = append(iprogs(1, 4), iprogs(2, 3)...)
@@ -859,6 +861,7 @@ func main() {
 						func(vr *vsched.Result) (string, string) { return judgeParams(pcs[i], out, vr) },
 						func() string { return wireKinds(out.sim) })
 				}),
+				leaksFamily(leakName, leakFaults),
 			}
 		},
 	})
